@@ -1,2 +1,3 @@
 import FpgoVerif.Props.C10
 /-! `#print axioms` for every property theorem of C10; parsed by `check`. -/
+#print axioms FpgoVerif.C10.C10_inv
